@@ -14,10 +14,12 @@ THEOREMS = ["errors_located", "errors_true", "siblings_disjoint_list", "siblings
             "validateP_located", "validateAllP_located", "validateElemsP_located", "windowsP_located",
             "validateFieldsP_located", "validateScalar_here", "validateScalar_true", "validateP_true", "minByLen_mem",
             "errors_true_sub", "sub_accepts_of_plain", "errors_true_sub_example",
-            "format_shown", "format_names_path"]
+            "format_shown", "format_names_path",
+            "validateScalar_eq_extracted", "listPrelude_eq_extracted", "dictPrelude_eq_extracted", "anyPrelude_eq_extracted", "validateP_list_prelude", "validateP_dict_prelude"]
 FILES = ["D42/Model/Data.lean", "D42/Model/Float.lean", "D42/Model/Validate.lean", "D42/Spec/Conforms.lean",
          "D42/Props/C02.lean", "D42/Props/C03.lean", "D42/Props/C03Facts.lean", "D42/Props/C03Sub.lean", "D42/Model/Format.lean", "D42/Props/C08.lean",
-         "D42/Props/C08Format.lean", "D42/Props/C03All.lean"]
+         "D42/Props/C08Format.lean", "D42/Props/C03All.lean",
+         "D42/Model/CheckProg.lean", "D42/Gen/ValidatorProg.lean", "D42/Props/ValidatorProg.lean"]
 
 EVIDENCE = dict(
     level="proof",
@@ -151,6 +153,11 @@ def multi_sibling_nested(v, depth=0):
 
 
 def run(ctx):
+    from .. import extract_validator
+    ok, msg = extract_validator.run()
+    if not ok:
+        ctx.breakage("translation", "validator extraction failed (d42/validation/_validator.py no longer consists of the "
+                     "recognised idioms): " + msg)
     runner.prove(ctx, MODULE, THEOREMS, FILES)
     cases = []
     for s, w in valcases.scalar_corpus() + valcases.schema_batch(ctx, ctx.n(80, 600), customs=True):
